@@ -67,13 +67,17 @@ prop("C11",
      SCHED_RULE + " Alphabet: activate, trigger, reset, wait, wait_for, waitActivation, wait_forActivation, "
      "isTriggered, isActive; initial state active/inactive; all 2-thread programs with <=2 ops per thread and all "
      "3-thread programs with 1 op per thread that contain a waiting operation (thorough adds 3 threads with one "
-     "2-op thread and mutator-only programs); every timed wait may time out at any point; spurious wake-ups.",
+     "2-op thread and mutator-only programs), plus 4-thread programs in which a reset overlaps a complete "
+     "reset+activate cycle made by other threads; every timed wait may time out at any point; spurious wake-ups.",
      "Real TriggerVariable.hpp under the controlled scheduler with a virtual clock. Oracles over a totally ordered "
      "invocation/return log: (1) wait returns only if a trigger/reset follows the activation in force; (2) "
      "waitActivation returns only after activation; (3) timed forms report false only if the event had not "
      "happened; (4) trigger on an inactive variable fails, isActive/isTriggered agree with the life cycle; (5) at "
      "quiescence no waiter is blocked although its event happened without re-activation (lost wake-up). Premises "
-     "use returned-before-invoked, conclusions tolerate overlap.",
+     "use returned-before-invoked, conclusions tolerate overlap. (3b) ordering of the critical sections on the "
+     "variable's two mutexes (lock-model acquisition sequence numbers): a timed wait that gave up after trigger's "
+     "critical section must have seen the flag, and after reset() returned the variable is inactive unless an "
+     "activate() took activeLock after reset's last acquisition.",
      A_COMMON,
      "Exhaustive exploration of all interleavings, time-out placements and spurious wake-ups of every small client "
      "program over the real TriggerVariable, with per-execution necessary-condition oracles and a quiescence "
@@ -274,10 +278,12 @@ prop("C08",
      [dict(name="C08", src="C08.cpp", cxxflags=LOCK_FLAGS, deadline=dict(quick=100, thorough=480), required_cover=28)],
      SCHED_RULE + " Instances: guarded, guarded_opt (on/off) x {mutex, timed_mutex}; shared_guarded, "
      "shared_guarded_opt (on/off), ordered_guarded, deferred_guarded x the four mutex types. Programs: holder in "
-     "{none, exclusive handle, shared handle, inside modify(), inside modify_detach()} that either keeps its handle "
+     "{none, exclusive handle, shared handle, inside modify(), inside modify_detach(), shared handle held while a "
+     "modify_detach is queued behind it (deferred_guarded)} that either keeps its handle "
      "for the whole attempt or releases it concurrently by destruction / unlock() / move-construction / "
      "move-assignment (target holding a lock of another wrapper); contender using each of try_lock, try_lock_for, "
-     "try_lock_until, try_lock_shared, try_lock_shared_for, try_lock_shared_until; optional third thread making a "
+     "try_lock_until, try_lock_shared, try_lock_shared_for, try_lock_shared_until, blocking lock / lock_shared / "
+     "const lock, and a handle that failed a try form and is then assigned from the blocking form; optional third thread making a "
      "blocking acquisition after the release.",
      "Oracles: returned handle is non-null iff the calling thread holds the lock (lock model) when the call "
      "returns, and refers to the wrapped object; against a handle held for the whole attempt the untimed forms "
@@ -299,7 +305,7 @@ prop("C08",
 prop("C06",
      [dict(name="C06", src="C06.cpp", cxxflags=LOCK_FLAGS, deadline=dict(quick=100, thorough=480))],
      SCHED_RULE + " Instances: deferred_guarded<Pair,M> for shared_timed_mutex and mutex (thorough: all four). "
-     "Alphabet: modify_detach, modify_async (value / void / throwing), shared handle through each acquisition form "
+     "Alphabet: modify_detach (plain / throwing functor), modify_async (value / void / throwing), shared handle through each acquisition form "
      "released at once or held across the next 1-2 operations of the same thread, load. All 2-thread programs with "
      "<=2 ops per thread and all 3-thread programs with 1 op per thread that contain 1-4 submissions (thorough: "
      "3 threads with one 2-op thread); each ends with lock_shared() or modify_detach(nop) made at quiescence.",
